@@ -41,7 +41,8 @@ def run(chk):
                 chk.violation('impl-vs-oracle', 'cell %d has non-positive measure %s %s' % (i, fl(v), where), rp, key='positive')
         tot = sum(vols)
         if abs(tot - tol.boxvol) > tol.vol * 10 * max(1, inp.n) ** 0:
-            chk.violation('impl-vs-oracle', 'cell measures sum to %s, the box measure is %s %s' % (fl(tot), fl(tol.boxvol), where), rp, key='sum')
+            chk.violation('impl-vs-oracle', 'cell measures sum to %s, the box measure is %s %s' % (fl(tot), fl(tol.boxvol), where), rp,
+                          key='sum' + (' gen-on-wall' if any(gen_on_wall(inp, i) for i in range(inp.n)) else ''))
         m = model.get(r.id)
         mm = parse_model(m) if m else None
         if mm is None:
@@ -54,7 +55,8 @@ def run(chk):
             if not tol.ill:
                 for i, v in enumerate(vols):
                     if i in ev and abs(v - ev[i].vol) > tol.vol:
-                        chk.violation('impl-vs-model', 'volume of cell %d is %s, exact %s %s' % (i, fl(v), fl(ev[i].vol), where), rp, key='vol')
+                        chk.violation('impl-vs-model', 'volume of cell %d is %s, exact %s %s' % (i, fl(v), fl(ev[i].vol), where), rp,
+                                      key='vol' + (' gen-on-wall' if gen_on_wall(inp, i) else ''))
         else:
             chk.violation('model-cert', 'exact oracle failed on record %d' % r.id, None, key='cert')
         chk.traces += 1
@@ -86,6 +88,7 @@ def run(chk):
         if any(not v > 0 for v in vols):
             chk.violation('impl-vs-oracle', 'a cell has non-positive measure %s' % where, rp, key='positive')
         if len(vols) != inp.n or abs(sum(vols) - tol.boxvol) > tol.vol * 10:
-            chk.violation('impl-vs-oracle', 'cell measures sum to %s, the box measure is %s %s' % (fl(sum(vols)), fl(tol.boxvol), where), rp, key='sum')
+            chk.violation('impl-vs-oracle', 'cell measures sum to %s, the box measure is %s %s' % (fl(sum(vols)), fl(tol.boxvol), where), rp,
+                          key='sum' + (' gen-on-wall' if any(gen_on_wall(inp, i) for i in range(inp.n)) else ''))
         nvo += 1
     chk.extra_cov['volume_integral_records'] = nvo
